@@ -126,6 +126,8 @@ def job(case: Dict[str, Any]) -> Dict[str, Any]:
     if nm in ("outputs", "both"):
         out_names = [f"res_{k}" for k in range(n_out)]
     if nm == "collide_in_out":
+        if case["out"] in ("pass0", "pass_all", "cast_i64"):
+            return {"status": "n/a"}  # the output IS that input: one value, one name
         in_names = [f"v_{k}" for k in range(ar)]
         out_names = ["v_0"] + [f"r_{k}" for k in range(1, n_out)]
         expect_raise = True
@@ -161,8 +163,6 @@ def job(case: Dict[str, Any]) -> Dict[str, Any]:
     want_in = in_names if (in_names and not expect_raise) else [f"in_{k}" for k in range(ar)]
     if not expect_raise and [i.name for i in pos] != want_in:
         problems.append(f"inputs: names/order {[i.name for i in pos]} != {want_in}")
-    if params and not any(i.name == "flag" for i in gin):
-        problems.append("inputs: input_param 'flag' is not a model input")
     float_elem = TensorProto.DOUBLE if dbl else TensorProto.FLOAT
     for k, i in enumerate(pos[:ar]):
         tt = i.type.tensor_type
@@ -181,8 +181,6 @@ def job(case: Dict[str, Any]) -> Dict[str, Any]:
         problems.append(f"outputs: model has {len(gout)} outputs for {n_out} result leaves")
     if out_names and not expect_raise and [o.name for o in gout] != out_names:
         problems.append(f"outputs: names {[o.name for o in gout]} != {out_names}")
-    if len({o.name for o in gout}) != len(gout):
-        problems.append(f"outputs: duplicate output names {[o.name for o in gout]}")
     if {o.name for o in gout} & {i.name for i in gin} and case["out"] not in ("pass0", "pass_all", "tuple_compute_pass", "nested3",
                                                                                  "cast_i64", "const_and_pass", "dict2", "only_last", "reduce_scalar"):
         problems.append("outputs: an output shares its name with an input although no input is passed through")
@@ -202,7 +200,9 @@ def job(case: Dict[str, Any]) -> Dict[str, Any]:
             elif want_np == np.float16:
                 if got_np != np.float16:
                     problems.append(f"outputs: output {k} declared {got_np} although the callable requests float16")
-            elif got_np != (np.float64 if dbl else np.float32):
+            elif got_np != want_np and got_np != (np.float64 if dbl else np.float32):
+                # allowed: the width of the precision flag, or the width JAX computes under the same x64 mode (= a width the
+                # callable requests itself)
                 problems.append(f"outputs: output {k} declared {got_np} with enable_double_precision={dbl} (JAX: {want_np})")
         dims = [(d.dim_param or d.dim_value) if (d.dim_param or d.HasField("dim_value")) else None for d in tt.shape.dim]
         if not tt.HasField("shape") or len(dims) != len(leaf.shape):
@@ -217,6 +217,91 @@ def job(case: Dict[str, Any]) -> Dict[str, Any]:
                     break
     return {"status": "ok", "problems": problems, "digest": hashlib.sha256(m.SerializeToString()).hexdigest()[:14],
             "io": [[i.name for i in gin], [o.name for o in gout]]}
+
+
+def job_special(case: Dict[str, Any]) -> Dict[str, Any]:
+    """Signatures outside the small grammar: many positional arguments (unused ones at any index), layout flags."""
+    import hashlib
+    import jax
+    import jax.numpy as jnp
+    from onnx import helper
+    from jax2onnx import to_onnx
+    kind = case["kind"]
+    problems: List[str] = []
+    if kind == "many_args":
+        n, unused = case["n"], set(case["unused"])
+
+        def fn(*xs):
+            acc = 0.0
+            for k, v in enumerate(xs):
+                if k not in unused:
+                    acc = acc + v * float(k + 1)
+            return acc
+        specs = [(2, 3)] * n
+        kw: Dict[str, Any] = {}
+        sds = [jax.ShapeDtypeStruct((2, 3), np.float32)] * n
+        flagged_in, flagged_out = set(), set()
+    else:  # layout
+        S = (1, 4, 5, 3)
+        variant = case["variant"]
+        if variant == "mixed":
+            fn = lambda x, y: (x * 2.0, jnp.sum(y).astype(jnp.int32)[None], x[..., :1] + 1.0)  # noqa: E731
+            specs = [S, (2, 3)]
+        elif variant == "unused_4d":
+            fn = lambda x, y: (y * 2.0,)  # noqa: E731
+            specs = [S, S]
+        else:
+            fn = lambda x, y: (jnp.sum(y, axis=(1, 2)), x + y, y)  # noqa: E731
+            specs = [S, S]
+        sds = [jax.ShapeDtypeStruct(s, np.float32) for s in specs]
+        flagged_in, flagged_out = set(case["in"]), set(case["out"])
+        kw = {"inputs_as_nchw": sorted(flagged_in) or None, "outputs_as_nchw": sorted(flagged_out) or None}
+    leaves = jax.tree_util.tree_leaves(jax.eval_shape(fn, *sds))
+    try:
+        m = to_onnx(fn, specs, **kw)
+    except Exception as e:  # noqa: BLE001
+        return {"status": "raised", "type": type(e).__name__, "msg": str(e)[:150]}
+    inits = {i.name for i in m.graph.initializer}
+    gin = [i for i in m.graph.input if i.name not in inits]
+    if len(gin) != len(specs):
+        problems.append(f"inputs: model has {len(gin)} inputs {[i.name for i in gin][:14]} for {len(specs)} positional arguments")
+    else:
+        for k, (i, sd) in enumerate(zip(gin, sds)):
+            dims = [d.dim_value for d in i.type.tensor_type.shape.dim]
+            want = list(sd.shape)
+            if k in flagged_in:
+                want = [want[0], want[3], want[1], want[2]]
+            if dims != want:
+                problems.append(f"inputs: input {k} ({i.name}) declared {dims}, expected {want} (argument order / layout)")
+                break
+    gout = list(m.graph.output)
+    if len(gout) != len(leaves):
+        problems.append(f"outputs: model has {len(gout)} outputs for {len(leaves)} leaves")
+    else:
+        for k, (o, leaf) in enumerate(zip(gout, leaves)):
+            dims = [d.dim_value for d in o.type.tensor_type.shape.dim]
+            want = list(leaf.shape)
+            if k in flagged_out and len(want) == 4:
+                want = [want[0], want[3], want[1], want[2]]
+            got_np = np.dtype(helper.tensor_dtype_to_np_dtype(o.type.tensor_type.elem_type))
+            if dims != want or got_np.kind != np.dtype(leaf.dtype).kind:
+                problems.append(f"outputs: output {k} declared {got_np}{dims}, JAX leaf {np.dtype(leaf.dtype)}{want} (order / layout)")
+                break
+    return {"status": "ok", "problems": problems, "digest": hashlib.sha256(m.SerializeToString()).hexdigest()[:14],
+            "io": [[i.name for i in gin], [o.name for o in gout]]}
+
+
+def special_cases(tier: str) -> List[Dict[str, Any]]:
+    out: List[Dict[str, Any]] = []
+    for n, unused in ((12, [10]), (12, [3]), (12, [0, 11]), (11, [10]), (4, [1, 2]), (12, [])):
+        out.append({"kind": "many_args", "n": n, "unused": unused})
+    for variant, n_in4, out4 in (("mixed", [0], [0, 2]), ("unused_4d", [0, 1], [0]), ("reduce_first", [0, 1], [1, 2])):
+        for r_in in range(len(n_in4) + 1):
+            for fi in itertools.combinations(n_in4, r_in):
+                for r_out in range(len(out4) + 1):
+                    for fo in itertools.combinations(out4, r_out):
+                        out.append({"kind": "layout", "variant": variant, "in": list(fi), "out": list(fo)})
+    return out
 
 
 def cases(tier: str) -> List[Dict[str, Any]]:
@@ -283,6 +368,24 @@ def main(tier: str) -> int:
                 run.violation(f"{ident(p)}|{cls}", msg, {"case": p})
             if len(run.cov["samples"]) < 4 and len(r["io"][1]) >= 2:
                 run.sample({"case": ident(p), "model_io": r["io"]})
+        for _i, p, r in pool.imap("checks.c05", "job_special", special_cases(tier)):
+            idn = "special|" + "|".join(f"{k}={p[k]}" for k in sorted(p))
+            if is_worker_failure(r):
+                run.harness_error(f"{idn}: {r.get('_worker')} {r.get('msg', '')[:150]}")
+                continue
+            run.add("evaluations")
+            run.add("transitions")
+            outcomes["special:" + r["status"]] = outcomes.get("special:" + r["status"], 0) + 1
+            if r["status"] != "ok":
+                continue
+            run.add("traces_validated_against_impl")
+            run.state(r["digest"])
+            run.nontrivial(idn)
+            by2: Dict[str, str] = {}
+            for pr in r["problems"]:
+                by2.setdefault(pr.split(":")[0], pr)
+            for cls, msg in by2.items():
+                run.violation(f"{idn}|{cls}", msg, {"case": p, "special": True})
     run.cov["outcomes"] = outcomes
     return run.finish()
 
@@ -290,5 +393,5 @@ def main(tier: str) -> int:
 def replay(rep: Dict[str, Any]) -> Dict[str, Any]:
     from checks.c15 import _warm
     _warm()
-    r = job(rep["case"])
+    r = job_special(rep["case"]) if rep.get("special") else job(rep["case"])
     return {"violation": bool(r.get("problems")), "observed": r}
